@@ -20,8 +20,11 @@ LAZY_SOURCES = [
     ("vyxal/helpers.py::concat", ["vec1", "vec2"], set()),
     ("vyxal/elements.py::all_less_than_increasing", ["lhs"], set()),
     ("vyxal/elements.py::insert_or_map_nth", ["lhs"], {"lhs[:int(rhs)]", "lhs[int(rhs):]"}),  # both in the branch `vy_type(lhs) is str`
-    # split_keep / wrap (function overloads) carry yield-point contracts too; their other overloads split finite values
-    # and do force them, and this analysis is per function, not per overload: no source-not-forced obligation for them
+    # the analysis is per function, not per overload: the forcing uses of the overloads that are NOT lazy transformations
+    # (length comparison of two finite values, splitting a string, chunk sizes given as a list) are listed textually
+    ("vyxal/elements.py::overlapping_groups", ["lhs"], {"len(iterable(lhs, ctx=ctx))"}),  # overload (any, any): len(a) == len(b)
+    ("vyxal/elements.py::split_keep", ["lhs", "rhs"], {"re.split(f'({re.escape(vy_str(rhs, ctx=ctx))})', lhs)", "vy_str(rhs, ctx=ctx)"}),  # overload (str, any)
+    ("vyxal/elements.py::wrap", ["lhs", "rhs"], {"all((isinstance(x, int) for x in rhs))", "comprehension over rhs", "index(iterable(lhs, ctx=ctx), [slice_start, slice_start + pos], ctx)", "lhs.partition(rhs)"}),  # chunk sizes as a list; (str, str)
 ]
 
 
